@@ -972,6 +972,9 @@ pub fn run(report: &Report) {
     run_schedules(report, &mut total, q);
     batch_forms_chain(report, &mut total);
     single_step_part(report, &mut total, q);
+    super::pyfront::sweep(report, "misuse", 0,
+        "Python ChainCoder.get_data on coders whose content cannot be exported that way (unsealing data that was never sealed, a fractional number of words): an error, never a silently shortened result, coder unchanged",
+        &["ChainCoder.get_data"], &[]);
     super::pyfront::sweep(report, "views", if q { 3 } else { 4 }, "every constructor that takes compressed words (8) on every word string up to the listed length over 6 words, and every call form that takes symbol / parameter arrays (3 coders x 2 forms) on every message up to length 4: a negative-stride view, a stride-2 view and an interior slice must be read like a contiguous copy", &["ChainCoder"], &[]);
     super::pyfront::sweep(report, "chain", if q { 3 } else { 4 },
         "Python ChainCoder: every u32 word string of length 2..=bound over 8 boundary words, sealed and unsealed, x 5 models x {1, 3, 6 symbols} x 3 call forms: decode, then (a) encode back on the same coder, (b) get_remainders -> ChainCoder(concatenation, is_remainders=True) -> encode_reverse -> get_data, (c) only the second remainders item re-imported, the first kept apart: the original words",
